@@ -11,7 +11,7 @@ Cmds == <<
   C("option", <<"@", "\"help\"">>),
   C("set", <<"@", "v">>)
 >>
-Pre == <<[ci |-> 1, d |-> TRUE]>>
+Pre == <<[ci |-> CHOOSE j \in 1..Len(Cmds) : Cmds[j].k = "cpp_class", d |-> TRUE]>>
 MCPats == [f |-> FALSE, m |-> FALSE, x |-> FALSE]
 ASSUME PrintT(<<"PATS", ToJson(MCPats)>>)
 NoDev == {}
